@@ -438,3 +438,42 @@ func init() {
 	mut("C17", "(benign) RenewContract host rollover through a min-style helper variable", false, "",
 		Edit{r4, "\tif fc.TotalCollateral.Cmp(renewal.NewContract.TotalCollateral) > 0 {\n\t\trenewal.HostRollover = renewal.NewContract.TotalCollateral\n\t} else {\n\t\trenewal.HostRollover = fc.TotalCollateral\n\t}", "\thostRollover := fc.TotalCollateral\n\tif hostRollover.Cmp(renewal.NewContract.TotalCollateral) > 0 {\n\t\thostRollover = renewal.NewContract.TotalCollateral\n\t}\n\trenewal.HostRollover = hostRollover"})
 }
+
+func init() {
+	// ---- C18 ----
+	mp, ol, ge := "types/multiproof.go", "gateway/outline.go", "gateway/encoding.go"
+	mut("C18", "forEachElementLeaf skips resolution parents", true, "walker-coverage|.FileContractResolutions[*].Parent",
+		Edit{mp, "\t\t\tvisit(v2FileContractLeaf(&txn.FileContractResolutions[i].Parent))\n", ""})
+	mut("C18", "forEachElementLeaf hashes siafund parents as siacoin leaves", true, "walker-coverage",
+		Edit{mp, "visit(siafundLeaf(&txn.SiafundInputs[i].Parent))", "visit(elementLeaf{&txn.SiafundInputs[i].Parent.StateElement, Hash256{}})"})
+	mut("C18", "forEachTree drops duplicate leaf indices before visiting", true, "one-enumeration|forEachTree:all-leaves-visited",
+		Edit{mp, "\t\tstart := clearBits(leaves[0].LeafIndex, height+1)", "\t\tleaves = dedupLeaves(leaves)\n\t\tstart := clearBits(leaves[0].LeafIndex, height+1)"},
+		Edit{mp, "// multiproofSize computes the size", "func dedupLeaves(ls []elementLeaf) []elementLeaf {\n\tout := ls[:0]\n\tfor i, l := range ls {\n\t\tif i == 0 || l.LeafIndex != ls[i-1].LeafIndex {\n\t\t\tout = append(out, l)\n\t\t}\n\t}\n\treturn out\n}\n\n// multiproofSize computes the size"})
+	mut("C18", "encoder computes the multiproof from the stripped copies", true, "proof-count|encoder:proof-of-original",
+		Edit{mp, "multiproof := computeMultiproof(txns)", "multiproof := computeMultiproof(prooflessTxns)"})
+	mut("C18", "encoder strips proofs from shallow copies", true, "proof-count|encoder:strips-copies-only",
+		Edit{mp, "prooflessTxns[i] = txns[i].DeepCopy()", "prooflessTxns[i] = txns[i]"})
+	mut("C18", "decoder reads one hash fewer than multiproofSize", true, "proof-count|decoder:reads-multiproofSize",
+		Edit{mp, "multiproof := make([]Hash256, multiproofSize(*txns))", "multiproof := make([]Hash256, max(multiproofSize(*txns), 1)-1)"})
+	mut("C18", "outline stores the transaction ID instead of the leaf hash", true, "hash-kind|OutlineBlock:stored hash",
+		Edit{ol, "\t\t\tHash:          b.V2.Transactions[i].MerkleLeafHash(),", "\t\t\tHash:          types.Hash256(b.V2.Transactions[i].ID()),"})
+	mut("C18", "Complete indexes candidate v1 transactions by ID", true, "hash-kind|(*V2BlockOutline).Complete:map key",
+		Edit{ol, "v1hashes[txns[i].MerkleLeafHash()] = &txns[i]", "v1hashes[types.Hash256(txns[i].ID())] = &txns[i]"})
+	mut("C18", "outline commitment omits the miner-address state leaf", true, "commitment|outline-shape",
+		Edit{ol, "\tacc.AddLeaf(cs.MerkleLeafHash(bo.MinerAddress))\n\tfor _, txn := range bo.Transactions {", "\tfor _, txn := range bo.Transactions {"})
+	mut("C18", "OutlineBlock lists v2 transactions first", true, "commitment|outline-order",
+		Edit{ol, "\tfor i := range b.Transactions {\n\t\totxns = append(otxns, OutlineTransaction{\n\t\t\tHash:        b.Transactions[i].MerkleLeafHash(),\n\t\t\tTransaction: &b.Transactions[i],\n\t\t})\n\t}\n\tfor i := range b.V2Transactions() {\n\t\totxns = append(otxns, OutlineTransaction{\n\t\t\tHash:          b.V2.Transactions[i].MerkleLeafHash(),\n\t\t\tV2Transaction: &b.V2.Transactions[i],\n\t\t})\n\t}\n", "\tfor i := range b.V2Transactions() {\n\t\totxns = append(otxns, OutlineTransaction{\n\t\t\tHash:          b.V2.Transactions[i].MerkleLeafHash(),\n\t\t\tV2Transaction: &b.V2.Transactions[i],\n\t\t})\n\t}\n\tfor i := range b.Transactions {\n\t\totxns = append(otxns, OutlineTransaction{\n\t\t\tHash:        b.Transactions[i].MerkleLeafHash(),\n\t\t\tTransaction: &b.Transactions[i],\n\t\t})\n\t}\n"})
+	mut("C18", "outline ID leaves the nonce out of the header", true, "field-map|ID:header",
+		Edit{ol, "\t\tNonce:      bo.Nonce,\n\t\tTimestamp:  bo.Timestamp,\n\t\tCommitment: bo.commitment(cs),", "\t\tTimestamp:  bo.Timestamp,\n\t\tCommitment: bo.commitment(cs),"})
+	mut("C18", "Complete takes the block height from the state", true, "field-map|Complete:V2.Height",
+		Edit{ol, "\t\t\tHeight:     bo.Height,\n", "\t\t\tHeight:     cs.Index.Height + 1,\n"})
+	mut("C18", "Complete forgets v1 fees", true, "fees|Complete:v1-fees-follow-transaction",
+		Edit{ol, "\t\t\tb.MinerPayouts[0].Value = b.MinerPayouts[0].Value.Add(ptxn.Transaction.TotalFees())\n", ""})
+	mut("C18", "Complete returns the missing list computed before filling", true, "missing|Complete:reports-Missing",
+		Edit{ol, "func (bo *V2BlockOutline) Complete(cs consensus.State, txns []types.Transaction, v2txns []types.V2Transaction) (types.Block, []types.Hash256) {\n", "func (bo *V2BlockOutline) Complete(cs consensus.State, txns []types.Transaction, v2txns []types.V2Transaction) (types.Block, []types.Hash256) {\n\tmissingBefore := bo.Missing()\n"},
+		Edit{ol, "\treturn b, bo.Missing()\n", "\treturn b, missingBefore\n"})
+	mut("C18", "outline decoder does not cross-check the v2 kind count", true, "kinds|kinds:count-v2",
+		Edit{ge, "if counts[0] != len(txns) || counts[1] != len(v2txns) || counts[2] != len(hashes) {", "if counts[0] != len(txns) || counts[2] != len(hashes) {"})
+	mut("C18", "(benign) Missing with a local and early continue", false, "",
+		Edit{ol, "\t\tif txn.Transaction == nil && txn.V2Transaction == nil {\n\t\t\tmissing = append(missing, txn.Hash)\n\t\t}", "\t\tif !(txn.Transaction == nil && txn.V2Transaction == nil) {\n\t\t\tcontinue\n\t\t}\n\t\tmissing = append(missing, txn.Hash)"})
+}
